@@ -507,6 +507,10 @@ def install(E):
     I["math.Pow"] = m_pow
     doc("math.Sqrt / math.Pow", "uninterpreted functions (congruence only) unless configured exact")
 
+    def m_f64bits(E, name, args, ins):
+        return z3.fpToIEEEBV(args[0])
+    I["math.Float64bits"] = m_f64bits
+
     def m_inf(E, name, args, ins):
         s = args[0]
         return zif(s >= 0, z3.fpPlusInfinity(F64), z3.fpMinusInfinity(F64))
@@ -579,6 +583,12 @@ def install(E):
         arr = E.new_input("rand%d" % k, "bytes", z3.ArraySort(BV64, z3.BitVecSort(8)), n=n)
         for i in range(n):
             E.slice_set(sl, bv(i), z3.Select(arr, bv(i)))
+        if E.cfg.get("rand_distinct"):
+            # independently drawn nonces / identifiers do not collide (outside the claim: DESIGN 4.3)
+            for (n2, arr2) in E.ghost.setdefault("rand_draws", []):
+                if n2 == n and n >= 8:
+                    E.assume_global(Or(*[z3.Select(arr, bv(i)) != z3.Select(arr2, bv(i)) for i in range(n)]), "crypto/rand: draws of %d bytes do not collide" % n)
+            E.ghost["rand_draws"].append((n, arr))
         if E.cfg.get("rand_can_fail", False):
             return (sl.len, E.sym_error("randerr"))
         return (sl.len, Iface.nil())
